@@ -632,6 +632,13 @@ func (v *StrictArray) MarshalBinary() (data []byte, err error) {
 		return nil, oe.Wrap(err, "marshal")
 	}
 
+	// The count must cover the elements appended by Set, which never updates it.
+	v.lock.Lock()
+	if n := uint32(len(v.properties)); v.count != n {
+		v.count = n
+	}
+	v.lock.Unlock()
+
 	if err = binary.Write(b, binary.BigEndian, v.count); err != nil {
 		return nil, oe.Wrap(err, "marshal")
 	}
